@@ -227,7 +227,7 @@ func genSize(r *Rng, big bool) (int, string) {
 
 func nalHeader(r *Rng, codec string) ([]byte, string) {
 	if codec == "h265" {
-		types := []int{0, 1, 8, 9, 15, 16, 17, 18, 19, 20, 21, 22, 23, 24, 32, 33, 34, 35, 39, 40, 63}
+		types := []int{0, 1, 8, 9, 15, 16, 17, 18, 19, 20, 21, 22, 23, 24, 32, 33, 34, 35, 39, 40, 48, 50, 53, 63}
 		t := types[r.Intn(len(types))]
 		if r.Chance(15) {
 			t = r.Intn(64)
@@ -300,6 +300,30 @@ func genMuxCase(r *Rng, count func(string), thorough bool) *muxCase {
 	// parameter sets
 	if c.codec == "h265" {
 		c.vps, c.sps, c.pps = pickBytes(r, hevcVPS), pickBytes(r, hevcSPS), pickBytes(r, hevcPPS)
+		if r.Chance(50) { // synthesised VPS / SPS: profile, tier, level, sub-layers, chroma, depths vary
+			rp := func() hevcPTL {
+				return hevcPTL{space: uint(r.Intn(4)), tier: uint(r.Intn(2)), idc: uint([]int{1, 2, 3, 4, 9, 0, 31, 17}[r.Intn(8)]),
+					level: uint([]int{30, 60, 93, 120, 150, 153, 186, 0, 255}[r.Intn(9)]), compatExtra: uint32(r.Intn(4)) << uint(r.Intn(28))}
+			}
+			pv := rp()
+			ps := pv
+			mv, ms := uint(r.Intn(7)), uint(0)
+			ms = mv
+			if r.Chance(45) {
+				ps = rp()
+				ms = uint(r.Intn(7))
+				count("h265-synth-vps-sps-differ")
+			} else {
+				count("h265-synth-vps-sps-agree")
+			}
+			nest := uint(1)
+			if ms > 0 && r.Chance(50) {
+				nest = 0
+			}
+			c.vps = synthVPS(pv, mv)
+			c.sps = synthSPS(ps, ms, nest, uint(r.Intn(4)), uint(r.Intn(8)), uint(r.Intn(8)))
+			count(fmt.Sprintf("h265-synth-sublayers-vps%d-sps%d", mv, ms))
+		}
 		if r.Chance(20) { // perturb the profile/tier/level region (still decoded by the real decoder)
 			i := 3 + r.Intn(12)
 			if i < len(c.sps) {
